@@ -480,6 +480,22 @@ theorem svcprov_addresses_are_the_hints (rrs : List RR) (eps : List SvcProv.Ep) 
   have := loop_ips rrs 0 none [] eps h
   simpa [allIps] using this
 
+/-- the number of candidates: one, plus one for every record whose priority value is higher than the one before it -/
+theorem svcprov_candidate_count (rr : RR) (rest : List RR) (eps : List SvcProv.Ep) (h : getEndpoints (rr :: rest) = some eps) :
+    eps.length = 1 + rises ((rr :: rest).map (·.prio)) := by
+  unfold getEndpoints at h
+  simp only [loop] at h
+  have hn : ¬ (0 < rr.prio ∧ (none : Option SvcProv.Ep).isSome = true) := fun x => by simp at x
+  simp only [hn, if_false] at h
+  have hg3 : (none : Option SvcProv.Ep).getD ({} : SvcProv.Ep) = ({} : SvcProv.Ep) := rfl
+  rw [hg3] at h
+  cases ha : applyParams ({} : SvcProv.Ep) rr.params with
+  | none => rw [ha] at h; simp at h
+  | some e' =>
+    rw [ha] at h
+    have := loop_some_count rest rr.prio e' [] eps h
+    simpa [Nat.add_comm] using this
+
 /-- an answer without HTTPS records gives no candidate (the election moves on to the next provider) -/
 theorem svcprov_no_record_no_candidate : getEndpoints [] = some [] := rfl
 
